@@ -5,7 +5,9 @@
 2. every f-string -> __vf_fstr__(parts...), identical for concrete parts, structured for symbolic ones
    (f-strings are evaluated in C and would flatten a proxy otherwise).
 3. int(x) -> __vf_int__(x): int() for ordinary values, the truncated symbolic integer for a symbolic number;
-   datetime.combine(d, t, ...) -> __vf_combine__(d, t, ...): datetime.combine for ordinary values, a symbolic datetime for a symbolic date.
+   datetime.combine(d, t, ...) -> __vf_combine__(d, t, ...): datetime.combine for ordinary values, a symbolic datetime for a symbolic date;
+   float(x) -> __vf_float__(x): float() for ordinary values; for a symbolic decimal a wrapper that can only be formatted
+   (the binary rounding of the conversion is not modelled: the formatted text stands for the exact value).
 Nothing in /repo is edited; the rewritten code is compiled from the file contents on every run.
 """
 import ast
@@ -39,6 +41,8 @@ class _T(ast.NodeTransformer):
         # the truncated symbolic integer for a symbolic number
         if isinstance(node.func, ast.Name) and node.func.id == "int" and len(node.args) == 1 and not node.keywords:
             node.func = ast.copy_location(ast.Name("__vf_int__", ast.Load()), node.func)
+        if isinstance(node.func, ast.Name) and node.func.id == "float" and len(node.args) == 1 and not node.keywords:
+            node.func = ast.copy_location(ast.Name("__vf_float__", ast.Load()), node.func)
         # datetime.combine(date, time[, tzinfo]) is a C constructor: routed through a helper that accepts a symbolic date
         if isinstance(node.func, ast.Attribute) and node.func.attr == "combine" and isinstance(node.func.value, ast.Name) and node.func.value.id == "datetime":
             node.func = ast.copy_location(ast.Name("__vf_combine__", ast.Load()), node.func)
@@ -86,6 +90,7 @@ class _Loader(importlib.abc.Loader):
             ast.fix_missing_locations(tree)
             module.__dict__["__vf_fstr__"] = vf_time.vf_fstr
             module.__dict__["__vf_int__"] = vf_time.vf_int
+            module.__dict__["__vf_float__"] = vf_time.vf_float
             module.__dict__["__vf_combine__"] = vf_time.vf_combine
         code = compile(tree, self.path, "exec")
         LOADED[self.fullname] = self.path
